@@ -168,6 +168,47 @@ def known(w, p):
     return None
 
 
+def pinned_worlds():
+    """an updating run (UPDATE_SNAPS=true) with one Config pinned by snaps.Update(false): through that Config a
+    changed value is reported and nothing is rewritten; the other Config of the same run updates as usual"""
+    from gen import cfg_line
+    from core import hx
+    worlds = []
+    for i, kind in enumerate(['snap', 'json', 'yaml', 'sasnap', 'sajson']):
+        val = {'snap': (b'old value', b'new value'), 'sasnap': (b'old value', b'new value'), 'json': (b's {"a":1}', b's {"a":2}'),
+               'sajson': (b's {"a":1}', b's {"a":2}'), 'yaml': (b's a: 1\n', b's a: 2\n')}[kind]
+
+        def opline(cfg, t, v):
+            if kind in ('snap', 'sasnap'):
+                return '%s %d %d %s' % (kind, cfg, t, hx(v))
+            form, doc = v.split(b' ', 1)
+            return '%s %d %d %s %s' % (kind, cfg, t, form.decode(), hx(doc))
+        w = World('c04-pinned-%s' % kind)
+        w.add(mode_line(False, ''))
+        w.add(cfg_line(1, 'pinned'))
+        w.add(cfg_line(2, 'free'))
+        for t, cfg in ((1, 1), (2, 2)):
+            w.add('begin %d %s' % (t, hx(b'TestPin')))
+            w.add(opline(cfg, t, val[0]))
+            w.add('end %d' % t)
+        w.add('reset')
+        w.add(mode_line(False, 'true'))
+        w.add(cfg_line(1, 'pinned', None, None, 'false'))
+        w.add('begin 3 %s' % hx(b'TestPin'))
+        w.add(opline(1, 3, val[1]), ('pinned-config-reports-and-does-not-rewrite', suites.exp_one_error_no_write))
+        w.add('end 3')
+
+        def exp_upd(line, raw, ww):
+            if [k for k, _ in line.events] != ['L'] or not line.events[0][1].endswith(b'updated') or len(line.writes) != 1:
+                return 'the unpinned Config must update: %r w=%r' % ([(k, v[:30]) for k, v in line.events], line.writes)
+            return None
+        w.add('begin 4 %s' % hx(b'TestPin'))
+        w.add(opline(2, 4, val[1]), ('unpinned-config-updates', exp_upd))
+        w.add('end 4')
+        worlds.append(w)
+    return worlds
+
+
 def run(ctx):
     g = Gen(ctx.seed * 1000003 + 4)
     n = 150 if ctx.tier == 'quick' else 4000
@@ -185,5 +226,6 @@ def run(ctx):
         spec['changed'] = {key: m for key, m in spec['changed'].items()}
         worlds.append(render('c04-%d' % i, spec))
     worlds += fixed_worlds(ctx)
+    worlds += pinned_worlds()
     run_suite(ctx, 'match.update', worlds, known=known, chunk=200)
     findings.report(ctx, 'C04')
